@@ -346,6 +346,10 @@ func (i *Interpreter) Exec(ctx context.Context, bs match.Bindings, props core.St
 		// of the returned object), so it happens while the
 		// context is still watched.
 		x, err = export(v)
+	} else if _, is := err.(*goja.InterruptedError); !is {
+		// Likewise the text of a thrown value is computed by
+		// script code (its toString).
+		err = plainError(err)
 	}
 	cancel()
 
@@ -413,6 +417,22 @@ func export(v goja.Value) (x interface{}, err error) {
 		}
 	}()
 	return v.Export(), nil
+}
+
+// plainError returns an error with the text of the given script error.
+// A toString that throws (or is interrupted) while that text is
+// computed surfaces as an error, too.
+func plainError(err error) (e error) {
+	defer func() {
+		if r := recover(); r != nil {
+			if ie, is := r.(*goja.InterruptedError); is {
+				e = ie
+			} else {
+				e = fmt.Errorf("%v", r)
+			}
+		}
+	}()
+	return errors.New(err.Error())
 }
 
 func RunProgram(o *goja.Runtime, p *goja.Program) (v goja.Value, err error) {
